@@ -395,7 +395,8 @@ def main():
     for k, ch0 in enumerate(chunks):
       for cfeat, ctag, cname in configs:
         # serde: references cannot be deserialized, and serde has no impl for arrays of a const-generic length
-        ch = [d_ for d_ in ch0 if not ({'lifetime', 'const_generic'} & set(d_[2]))] if (cfeat and 'sd' in cfeat) else ch0
+        # (a lifetime that only Cow<'a, str> uses is fine: the declaration text is searched for `&`)
+        ch = [d_ for d_ in ch0 if 'const_generic' not in d_[2] and not any('&' in it for it in derive_items(d_[1]))] if (cfeat and 'sd' in cfeat) else ch0
         if not ch: continue
         tmp = Result(PROP, a.tier, a.seed)
         exe = build_decls(tmp, ch, ctag, features=cfeat, target_dir=os.path.join(WORK, 'target_' + ctag) if cfeat else None)
